@@ -4,12 +4,11 @@ use crate::support::*;
 use educe::Educe;
 use core::cmp::Ordering;
 #[derive(Educe)]
-#[repr(isize)]
-#[educe(Eq, PartialOrd, PartialEq)]
-pub enum T { Zed(#[educe(PartialOrd(method = m_pcmp))] A<0>, #[educe(PartialOrd(rank = 1i64))] A<1>) = 2, Unit(A<0>, #[educe(PartialOrd(method = "m_pcmp"))] A<1>) = 70000 }
+#[educe(PartialOrd, Eq, PartialEq, Ord)]
+pub enum T { C { arg: A<0> }, Some }
 
-pub fn values() -> Vec<T> { vec![T::Zed(A(0), A(0)), T::Zed(A(0), A(1)), T::Zed(A(0), A(7)), T::Zed(A(1), A(0)), T::Zed(A(1), A(1)), T::Zed(A(1), A(7)), T::Zed(A(7), A(0)), T::Zed(A(7), A(1)), T::Zed(A(7), A(7)), T::Unit(A(0), A(0)), T::Unit(A(0), A(1)), T::Unit(A(0), A(7)), T::Unit(A(1), A(0)), T::Unit(A(1), A(1)), T::Unit(A(1), A(7)), T::Unit(A(7), A(0)), T::Unit(A(7), A(1)), T::Unit(A(7), A(7))] }
-pub fn show(x: &T) -> String { #[allow(unused_variables)] match x { T::Zed(p0, p1) => format!("Zed({},{})", sv(p0), sv(p1)), T::Unit(p0, p1) => format!("Unit({},{})", sv(p0), sv(p1)) } }
-pub fn o_disc(x: &T) -> i128 { match x { T::Zed(_, _) => 2, T::Unit(_, _) => 70000 } }
-pub fn o_pcmp(a: &T, b: &T) -> Option<Ordering> { match (a, b) { (T::Zed(a0, a1), T::Zed(b0, b1)) => { match m_pcmp(a0, b0) { Some(Ordering::Equal) => (), x => return x } match ::core::cmp::PartialOrd::partial_cmp(a1, b1) { Some(Ordering::Equal) => (), x => return x } Some(Ordering::Equal) }, (T::Unit(a0, a1), T::Unit(b0, b1)) => { match ::core::cmp::PartialOrd::partial_cmp(a0, b0) { Some(Ordering::Equal) => (), x => return x } match m_pcmp(a1, b1) { Some(Ordering::Equal) => (), x => return x } Some(Ordering::Equal) }, _ => Some(o_disc(a).cmp(&o_disc(b))) } }
-pub fn run(out: &mut Out) { let vs = values(); for (i, a) in vs.iter().enumerate() { for (j, b) in vs.iter().enumerate() { let e = o_pcmp(a, b); let g = ::core::cmp::PartialOrd::partial_cmp(a, b); out.check(g == e, "ord_10", "partial_cmp", || format!("partial_cmp({}, {}) = {:?} expected {:?}", show(a), show(b), g, e)); } } }
+pub fn values() -> Vec<T> { vec![T::C { arg: A(0) }, T::C { arg: A(1) }, T::C { arg: A(7) }, T::Some] }
+pub fn show(x: &T) -> String { #[allow(unused_variables)] match x { T::C { arg: p0 } => format!("C({})", sv(p0)), T::Some => format!("Some()") } }
+pub fn o_disc(x: &T) -> i128 { match x { T::C { arg: _ } => 0, T::Some => 1 } }
+pub fn o_cmp(a: &T, b: &T) -> Ordering { match (a, b) { (T::C { arg: a0 }, T::C { arg: b0 }) => { let c = ::core::cmp::Ord::cmp(a0, b0); if c != Ordering::Equal { return c; } Ordering::Equal }, (T::Some, T::Some) => {  Ordering::Equal }, _ => o_disc(a).cmp(&o_disc(b)) } }
+pub fn run(out: &mut Out) { let vs = values(); for (i, a) in vs.iter().enumerate() { for (j, b) in vs.iter().enumerate() { let e = o_cmp(a, b); let g = ::core::cmp::Ord::cmp(a, b); out.check(g == e, "ord_10", "cmp", || format!("cmp({}, {}) = {:?} expected {:?}", show(a), show(b), g, e)); let g2 = ::core::cmp::PartialOrd::partial_cmp(a, b); out.check(g2 == Some(e), "ord_10", "partial_is_some_cmp", || format!("partial_cmp({}, {}) = {:?} expected Some({:?})", show(a), show(b), g2, e)); } } }
